@@ -224,6 +224,10 @@ func (s *TO0Server) acceptOwner(ctx context.Context, msg io.Reader) (*to0AcceptO
 	}
 
 	// Verify to0d hash matches to0d
+	if alg := sig.To1d.Payload.Val.To0dHash.Algorithm; !alg.Valid() {
+		captureErr(ctx, protocol.InvalidMessageErrCode, "")
+		return nil, fmt.Errorf("unsupported hash type %d for to0d hash", int64(alg))
+	}
 	to0dHash := sig.To1d.Payload.Val.To0dHash.Algorithm.HashFunc().New()
 	if err := cbor.NewEncoder(to0dHash).Encode(sig.To0d.Val); err != nil {
 		return nil, fmt.Errorf("error hashing to0d structure: %w", err)
